@@ -30,7 +30,13 @@ func init() {
 		Floors:      map[string]int64{"records_decoded": 100},
 		Jobs: func(tier string, seed int64) []Job {
 			n := pick(tier, 40000, 1200000)
-			return chunk("main", "prod", n, pick(tier, 2500, 37500), Job{Timeout: 30 * time.Minute})
+			js := chunk("main", "prod", n, pick(tier, 2500, 37500), Job{Timeout: 30 * time.Minute})
+			// production processes started with DEBUG set in their environment (the library reads it for its start-up
+			// level): still production processes
+			for i, v := range []string{"1", "true", "on"} {
+				js = append(js, Job{Sub: "main", Mode: "prod", From: 1000 * i, To: 1000*i + pick(tier, 1000, 20000), Env: []string{"DEBUG=" + v}, Timeout: 30 * time.Minute})
+			}
+			return js
 		},
 	})
 	register(&Plan{
